@@ -1,0 +1,13 @@
+//go:build verif
+
+package j5schema
+
+// VerifHook, when set by a verification harness, is called at the points of
+// the schema cache that correspond to actions of /verif/spec/SchemaCache.tla.
+var VerifHook func(point string, key string)
+
+func verifAt(point string, key string) {
+	if h := VerifHook; h != nil {
+		h(point, key)
+	}
+}
